@@ -278,7 +278,7 @@ pub fn close_position(
                 &TmpSwapInfo {
                     vamm: position.vamm.clone(),
                     trader: position.trader.clone(),
-                    side: side.clone(),
+                    side,
                     margin_amount: position.size.value,
                     leverage: config.decimals,
                     open_notional: partial_close_notional,
@@ -289,12 +289,13 @@ pub fn close_position(
                 },
             )?;
 
-            swap_input(
+            // trade exactly the partial base amount out of the position (its quote value is
+            // the notional quoted above)
+            swap_output(
                 &position.vamm,
-                side,
-                partial_close_notional,
+                direction_to_side(position.direction.clone()),
+                partial_close_amount,
                 Uint128::zero(),
-                true,
                 PARTIAL_CLOSE_POSITION_REPLY_ID,
             )?
         } else {
